@@ -385,9 +385,38 @@ def run_lagrange(case):
   return R(None, n >= 2, n)
 
 
+# ------------------------------------------------------------ calling routes
+from ..routes import routes_agree
+
+
+def route_table():
+  T = OrderedDict()
+  c = lambda v: (lambda: v)
+  T["Poly"] = (Poly, [("data", lambda: {0: F(1), 2: F(3)}), ("zero", c(F(0)))], lambda p: (sorted((k, str(v)) for k, v in p.terms()), repr(p.zero)))
+  p = Poly({0: F(1), 1: F(-2), 3: F(1, 2)})
+  for sch in SCHEMES:
+    T["Poly.__call__(%r)" % (sch,)] = (p, [("value", c(F(3, 2))), ("horner", (lambda sch=sch: sch))], str)
+  for strat in ("func", "poly"):
+    T["lagrange." + strat] = (lagrange[strat], [("pairs", lambda: [(F(0), F(1)), (F(1), F(3)), (F(2), F(-1))])],
+                              (lambda f: str(f(F(1, 2)))) , 0)
+  return T
+
+
+def gen_routes(run):
+  for name in route_table():
+    yield (name,)
+
+
+def run_routes(case):
+  ent = route_table()[case[0]]
+  return routes_agree(case[0], ent[0], ent[1], ent[2])
+
+
 KINDS = OrderedDict([
   ("pairs", Kind(gen_pairs, run_pair, chunk=40, rule="ordered pairs: ring ops, eq/hash, evaluation homomorphism x schemes, calculus, composition")),
   ("single", Kind(gen_single, run_single, chunk=4, rule="each polynomial: p-p, scalars, powers, routes, order/values, diff/integrate, evaluation")),
   ("triples", Kind(gen_triples, run_triple, chunk=40, rule="triples of the sub-pool: associativity, distributivity")),
   ("lagrange", Kind(gen_lagrange, run_lagrange, chunk=100, rule="point sets with distinct abscissae; non-trivial: >= 2 points")),
+  ("call-routes", Kind(gen_routes, run_routes, chunk=1,
+                       rule="each function with every documented parameter set: all positional / all keyword / every split must agree")),
 ])
